@@ -80,7 +80,7 @@ PROPS = {
                      "post-condition is a function of (rx, fstart, object state) only"],
         not_decided=["the EAGAIN/select branch of _socket.recv returning None is reported as connection-closed (as written)"]),
     "C04": dict(
-        functions=[K + "WebSocket.recv_data_frame", K + "WebSocket.recv", A + "frame_buffer.recv_frame"], lemmas=[],
+        functions=[K + "WebSocket.recv_data_frame", K + "WebSocket.recv", A + "frame_buffer.recv_frame", A + "ABNF.validate"], lemmas=[],
         trusted_base=[T_TRANSPORT, "spec fold over accepted data frames (recv.fold_step)"],
         assumptions=["continuous_frame.validate/add/is_fire/extract are verified inlined into recv_data_frame (no separate contract)"],
         not_decided=[]),
@@ -108,10 +108,12 @@ PROPS = {
         assumptions=["object invariant WSI (no transport => unconnected; auto_close_frames <= 1; auto_close_frames = 1 => unconnected) is "
                      "established by __init__ and preserved by every public method under contract, hence over all call/event histories",
                      "explicit user calls of send_close() are not counted as 'own initiative' (the statement's parenthesis names close() and the reply)"],
-        not_decided=["close() returns within its timeout (a wall-clock bound on a loop whose progress depends on the peer)"]),
+        not_decided=["close() returns within its timeout as a wall-clock bound: what is proved is its safety rendering - the socket timeout is set to the "
+                     "caller's timeout before the wait loop, and no new wait for a frame is started once a clock reading of that iteration lies "
+                     "past the deadline; that a blocked read really returns after the socket timeout is the transport's assumed behaviour"]),
     "C13": dict(
         functions=[PA + "WebSocketApp._callback", PA + RFN + "read", D_ + "Dispatcher.read", D_ + "SSLDispatcher.read",
-                   A + "frame_buffer.recv_frame", K + "WebSocket.recv_data_frame", SETSOCK + "@@reconnect=on,external"],
+                   A + "frame_buffer.recv_frame", A + "frame_buffer.recv_strict", K + "WebSocket.recv_data_frame", SETSOCK + "@@reconnect=on,external"],
         functions_thorough=[SETSOCK],
         lemmas=[], bounded=[appsim.bounded("C13")], trusted_base=[T_TRANSPORT, T_CB, T_SEL],
         assumptions=[BOUNDED_COMPOSITION + " (here: on_open / on_reconnect fire once per connection and before the dispatcher starts reading)"],
@@ -206,7 +208,7 @@ PROPS = {
         not_decided=["SimpleCookieJar.add / get for arbitrary strings (bounded enumeration only)"]),
     "C12": dict(
         functions=[K + "WebSocket.send_frame", K + "WebSocket._send", SK + "send", K + "WebSocket.recv", A + "frame_buffer.recv_frame",
-                   K + "WebSocket.recv_data_frame"],
+                   K + "WebSocket.recv_data_frame", K + "WebSocket.__init__"],
         lemmas=[],
         trusted_base=[T_TRANSPORT, "threading.Lock is a mutex with release/acquire ordering (assumed contract); all writers go through "
                                    "WebSocket._send, whose contract requires the send lock"],
